@@ -1,0 +1,7 @@
+//go:build verif
+
+// Hand-written additions to the generated contract skeleton of this package.
+package zkmod
+
+//@ func challenge
+//@   loop 1: invariant len(es) == 80 && each(es[:rangeindex+1], x, x != nil)
